@@ -73,6 +73,44 @@ fn p_consume_calls() {
 }
 #[kani::proof]
 #[kani::unwind(3)]
+fn p_consume_group_object() {
+    // the same through a GROUP object and through a successful cast of it
+    let id: u32 = kani::any();
+    let (keep, imp, ctx) = setup(id);
+    let g = group_obj!((imp, ctx) as FinGroup);
+    assert!(count(&keep) == 2 && g.fin_peek() == id);
+    let casted: bool = kani::any();
+    let r = if casted { let c = cast!(g impl Leaf).unwrap(); assert!(count(&keep) == 2); c.fin() } else { g.fin() };
+    assert!(r == id ^ 0xF1);
+    assert!(unsafe { COUNT_DURING_CONSUME } >= 2, "C07 during a by-value call a caller-side handle keeps the context alive besides the callee's own (group object)");
+    assert!(count(&keep) == 1, "C07 after a consuming call on a group object its context handle is released: the count is back to its starting value");
+    drop(keep);
+    assert!(unsafe { CTX_DROPPED } == 1, "C07 and the payload is released with the last handle");
+    kani::cover!(casted, "through a cast");
+    kani::cover!(!casted, "group itself");
+}
+#[kani::proof]
+#[kani::unwind(3)]
+fn p_consume_failed_cast() {
+    // a FAILED cast / into consumes the group: its context handle is released then and there
+    let id: u32 = kani::any();
+    let (keep, imp, ctx) = setup(id);
+    let g = group_obj!((imp, ctx) as PartGroup);
+    assert!(count(&keep) == 2);
+    let which: u8 = kani::any();
+    kani::assume(which < 3);
+    match which {
+        0 => assert!(cast!(g impl Never).is_none(), "absent trait"),
+        1 => assert!(cast!(g impl Leaf + Never).is_none(), "partly absent"),
+        _ => assert!(into!(g impl Never).is_none(), "absent trait"),
+    }
+    assert!(count(&keep) == 1, "C07 a failed cast destroys the consumed group and releases its context handle: the count is back to its starting value");
+    drop(keep);
+    assert!(unsafe { CTX_DROPPED } == 1);
+    kani::cover!(which == 1, "partly absent");
+}
+#[kani::proof]
+#[kani::unwind(3)]
 fn p_consume_count() {
     let id: u32 = kani::any();
     let (keep, imp, ctx) = setup(id);
